@@ -171,15 +171,18 @@ pub fn native_minmax<T, const LESS: bool>(
         Value::Object(o) => unsafe {
             match &o.as_ref().body {
                 CaoLangObjectBody::Table(t) => {
-                    let Some(first) = t.iter().next() else {
+                    // work on a copy of the rows: the key function is a script, it may change the
+                    // table (reallocating the storage an iterator over it points into)
+                    let rows: Vec<(Value, Value)> = t.iter().map(|(k, v)| (*k, *v)).collect();
+                    let Some(first) = rows.first() else {
                         return Ok(Value::Nil);
                     };
-                    vm.stack_push(*first.1)?;
-                    vm.stack_push(*first.0)?;
+                    vm.stack_push(first.1)?;
+                    vm.stack_push(first.0)?;
                     let mut max_key = vm.run_function(key_fn)?;
                     let mut i = 0;
 
-                    for (j, (k, value)) in t.iter().enumerate().skip(1) {
+                    for (j, (k, value)) in rows.iter().enumerate().skip(1) {
                         vm.stack_push(*value)?;
                         vm.stack_push(*k)?;
                         let key = vm.run_function(key_fn)?;
@@ -188,11 +191,7 @@ pub fn native_minmax<T, const LESS: bool>(
                             max_key = key;
                         }
                     }
-                    // `i` counts the rows `iter` yields; it skips rows whose key can not be looked up
-                    // again (NaN is not equal to itself)
-                    let Some((k, v)) = t.iter().nth(i).map(|(k, v)| (*k, *v)) else {
-                        return Ok(Value::Nil);
-                    };
+                    let (k, v) = rows[i];
                     let mut result = vm.init_table()?;
                     let t = result.0.as_mut().as_table_mut().unwrap();
                     t.insert(vm.init_string("key")?, k)?;
@@ -222,10 +221,13 @@ pub fn native_sorted<T>(
                 CaoLangObjectBody::Table(t) => {
                     // TODO:
                     // sort in place?
-                    let mut result = Vec::with_capacity(t.len());
-                    for (k, v) in t.iter() {
-                        vm.stack_push(*v)?;
-                        vm.stack_push(*k)?;
+                    // work on a copy of the rows: the key function is a script, it may change the
+                    // table (reallocating the storage an iterator over it points into)
+                    let rows: Vec<(Value, Value)> = t.iter().map(|(k, v)| (*k, *v)).collect();
+                    let mut result = Vec::with_capacity(rows.len());
+                    for (k, v) in rows {
+                        vm.stack_push(v)?;
+                        vm.stack_push(k)?;
                         let key = vm.run_function(key_fn)?;
                         result.push((key, k, v));
                     }
@@ -236,7 +238,7 @@ pub fn native_sorted<T>(
                     let mut out = vm.init_table()?;
                     let t = out.as_table_mut().unwrap();
                     for (_, k, v) in result {
-                        t.insert(*k, *v)?;
+                        t.insert(k, v)?;
                     }
                     Ok(Value::Object(out.0))
                 }
